@@ -4,7 +4,7 @@
 cd /verif
 for d in ${SEEDS:-seeded/*/}; do
   id=$(basename $d); prop=${id%%-*}; n=${id##*-}
-  MUTDIR=/tmp/mut; if [ "$n" -gt 6 ]; then MUTDIR=/tmp/mut4; n=$((n-6)); elif [ "$n" -gt 4 ]; then MUTDIR=/tmp/mut3; n=$((n-4)); elif [ "$n" -gt 2 ]; then MUTDIR=/tmp/mut2; n=$((n-2)); fi
+  MUTDIR=/tmp/mut; if [ "$n" -gt 8 ]; then MUTDIR=/tmp/mut5; n=$((n-8)); elif [ "$n" -gt 6 ]; then MUTDIR=/tmp/mut4; n=$((n-6)); elif [ "$n" -gt 4 ]; then MUTDIR=/tmp/mut3; n=$((n-4)); elif [ "$n" -gt 2 ]; then MUTDIR=/tmp/mut2; n=$((n-2)); fi
   P=$d/patch.diff
   if ! git -C /repo apply --check $P 2>/dev/null; then
     R=$MUTDIR/$prop-out/patch$n.rebased.diff
